@@ -58,10 +58,11 @@ fn list_plan(n: usize) -> impl Strategy<Value = ListPlan> {
 fn strategy() -> impl Strategy<Value = Case> {
 	let class = (class_stream(), prop_oneof![1 => Just(Presence::ClientOnly), 1 => Just(Presence::ServerOnly), 1 => Just(Presence::Identical), 3 => Just(Presence::Different)], list_plan(6), list_plan(6), list_plan(4))
 		.prop_map(|(stream, presence, fields, methods, interfaces)| ClassPlan { stream, presence, fields, methods, interfaces });
-	(proptest::collection::vec(class, 1..=5), proptest::collection::vec(0u8..4, 6), any::<bool>()).prop_map(|(classes, resources, parsed)| Case { classes, resources, parsed })
+	(proptest::collection::vec(class, 1..=7), proptest::collection::vec(0u8..4, 6), any::<bool>()).prop_map(|(classes, resources, parsed)| Case { classes, resources, parsed })
 }
 
-pub const CLASS_ENTRY_NAMES: &[&str] = &["net/minecraft/A", "net/minecraft/sub/B", "C", "com/lib/L", "net/minecraft/D$1"];
+/// the last two sit in packages that merely *start with the characters* `net/minecraft`: bundled libraries like `com/lib/L`
+pub const CLASS_ENTRY_NAMES: &[&str] = &["net/minecraft/A", "net/minecraft/sub/B", "C", "com/lib/L", "net/minecraft/D$1", "net/minecraftforge/fml/H", "net/minecraftx"];
 const ITF_POOL: &[&str] = &["java/lang/Runnable", "net/minecraft/I1", "net/minecraft/I2", "x/I3"];
 
 fn pick<T: Clone>(pool: &[T], mask: &[bool]) -> Vec<T> {
